@@ -105,6 +105,18 @@ BEHAVIOUR_PRESERVING += [
  ('bp_circuit_final_poly_connect_in_helper', [('plonky2/src/fri/recursive_verifier.rs', '        self.connect_extension(eval, old_eval);\n    }\n', '        self.connect_final_eval(eval, old_eval);\n    }\n\n    fn connect_final_eval(&mut self, eval: ExtensionTarget<D>, old_eval: ExtensionTarget<D>) {\n        self.connect_extension(eval, old_eval);\n    }\n')], ['C06', 'C11'], None),
 ]
 
+# ---- renames: an anchor function, and a callee named by a table row
+BEHAVIOUR_PRESERVING += [
+ ('bp_rename_callee_pow_check', [('plonky2/src/fri/verifier.rs', 'pub(crate) fn fri_verify_proof_of_work<F: RichField + Extendable<D>, const D: usize>(', 'pub(crate) fn check_grinding_response<F: RichField + Extendable<D>, const D: usize>('),
+                                  ('plonky2/src/fri/verifier.rs', '    fri_verify_proof_of_work(challenges.fri_pow_response, &params.config)?;', '    check_grinding_response(challenges.fri_pow_response, &params.config)?;'),
+                                  ('plonky2/src/batch_fri/verifier.rs', 'fri_verify_proof_of_work', 'check_grinding_response'),
+                                  ('plonky2/src/batch_fri/verifier.rs', 'fri_verify_proof_of_work', 'check_grinding_response')], ['C05', 'C03'], None),
+ ('bp_rename_anchor_validate_shape', [('plonky2/src/fri/validate_shape.rs', 'pub(crate) fn validate_batch_fri_proof_shape<F, C, const D: usize>(', 'pub(crate) fn validate_batched_fri_shape<F, C, const D: usize>('),
+                                       ('plonky2/src/fri/validate_shape.rs', '    validate_batch_fri_proof_shape::<F, C, D>(proof, &[instance.clone()], params)', '    validate_batched_fri_shape::<F, C, D>(proof, &[instance.clone()], params)'),
+                                       ('plonky2/src/batch_fri/verifier.rs', 'validate_batch_fri_proof_shape', 'validate_batched_fri_shape'),
+                                       ('plonky2/src/batch_fri/verifier.rs', 'validate_batch_fri_proof_shape', 'validate_batched_fri_shape')], ['C05', 'C18', 'C03'], None),
+]
+
 def run(name, subs, checks):
     args = [os.path.join(V, 'selftest', 'mutrun.py')]
     for f, o, n in subs:
